@@ -280,7 +280,10 @@ def parse_rvalue(s: str) -> Rvalue:
         return Rvalue("use", (Operand("copy", parse_place(m.group(2))),), s)
     if s.startswith("&raw const ") or s.startswith("&raw mut "):
         mut = s.startswith("&raw mut ")
-        return Rvalue("ref", (parse_place(s.split(" ", 2)[2]), mut, True), s)
+        rest = s.split(" ", 2)[2]
+        if rest.startswith("(fake) "):
+            rest = rest[7:]
+        return Rvalue("ref", (parse_place(rest), mut, True), s)
     if s.startswith("&mut "):
         return Rvalue("ref", (parse_place(s[5:]), True, False), s)
     if s.startswith("&"):
